@@ -28,6 +28,8 @@ def run(rep, tier):
     H.r_prev_update(rep, hc)
     H.r_teval_before_interrupt(rep, hc)
     H.r_teval_window(rep, hc)
+    rep.rule("R-DIR-MIRROR", "every `if forward { A } else { B }` comparison pair of time points in the handler is symmetric under time reflection")
+    H.r_dir_mirror(rep, hc)
     C19.interrupt_rule(rep, f)
     rep.explanation = ("Largely decided structurally. 'Everything before the stop is identical to the non-terminal run' follows from R-TERM-TAINT "
                        "(the terminal flag feeds only the Interrupt decision) together with determinism (C12).")
